@@ -339,6 +339,29 @@ func (s *Server) HttpSub(pathWithQuery string, websocket bool) *memconn.Conn {
 	return cli
 }
 
+// WsRtspConn opens an RTSP-over-WebSocket connection: lal's rtsp.WebsocketServer.HandleWebsocket is run on a
+// hijacked in-memory connection.  The returned client end first receives the HTTP 101 response, then WebSocket
+// frames; the client has to send its RTSP requests in (masked) WebSocket frames.
+func (s *Server) WsRtspConn() *memconn.Conn {
+	cli, srv := memconn.PairAddr(s.nextClientAddr(), "127.0.0.1:5566")
+	s.track(cli)
+	req, _ := http.NewRequest("GET", "http://127.0.0.1:5566/", nil)
+	req.RequestURI = "/"
+	req.Host = "127.0.0.1:5566"
+	req.RemoteAddr = srv.RemoteAddr().String()
+	req.Header.Set("Connection", "Upgrade")
+	req.Header.Set("Upgrade", "websocket")
+	req.Header.Set("Sec-WebSocket-Key", "dGhlIHNhbXBsZSBub25jZQ==")
+	req.Header.Set("Sec-WebSocket-Version", "13")
+	req.Header.Set("Sec-WebSocket-Protocol", "rtsp")
+	ws := rtsp.NewWebsocketServer("", s.SM, s.Cfg.RtspConfig.ServerAuthConfig)
+	s.run("ws-rtsp", srv, func() {
+		ws.HandleWebsocket(&hijackWriter{conn: srv, hdr: http.Header{}}, req)
+		_ = srv.Close()
+	})
+	return cli
+}
+
 // Panics returns the panics recovered so far.
 func (s *Server) Panics() []Panic {
 	s.mu.Lock()
